@@ -11,9 +11,14 @@
        across files, the include a qualified name goes through after earlier includes were
        deleted ([spec_include_sub]);
      - void functions stay well formed.
-   Left as hypotheses of [trim_resolves_with] (decidable, stated on the output): base services
-   ([base_ok]), identifiers used as values ([cv_idents_ok (ident_ok q)]: exactly one
-   explanation), and the depth bound of the include tree ([includes_ok (S (length q))]). *)
+     - the include tree of the output is lower than its number of files
+       ([trimmed_includes_ok]: it lies inside the input's acyclic tree, and an acyclic tree on
+       n files is lower than n: [depth_bound]);
+     - without a method filter the base services of the output resolve ([trimmed_base_ok]).
+   [trim_resolves_with] has the three output conditions as hypotheses;
+   [trim_resolves_given_bases_and_idents] discharges the include depth (every configuration),
+   [trim_resolves_no_filter] also the base services: what remains is the hypothesis on
+   identifiers used as values ([cv_idents_ok (ident_ok q)]: exactly one explanation). *)
 From Coq Require Import List Bool Arith NArith ZArith Lia.
 From Coq.Strings Require Import Byte.
 From Verif Require Import Base.Bytes Idl.Ast Idl.AstUtil Idl.AstFacts Idl.Trim Idl.TrimSpec Idl.TrimFacts.
@@ -767,3 +772,311 @@ Section Resolves4.
     split; [exact Hq|]. apply Idl.ResolveCompleteConst.resolve_complete. exact Hq.
   Qed.
 End Resolves4.
+
+
+(* ==================================================================== *)
+(* ---------------------------------------------------------------- the depth of an acyclic include tree *)
+
+Section Depth.
+  Variable Q : program.
+
+  Definition istep (a b : bytes) : Prop :=
+    exists f inc, prog_file Q a = Some f /\ In inc (f_includes f) /\ in_ref inc = Some b.
+
+  Inductive iplus : bytes -> bytes -> Prop :=
+  | ip_one a b : istep a b -> iplus a b
+  | ip_more a b d : istep a b -> iplus b d -> iplus a d.
+
+  Lemma iplus_snoc a b d : iplus a b -> istep b d -> iplus a d.
+  Proof. intros H S. induction H; [eapply ip_more; [eassumption | apply ip_one; exact S] | eapply ip_more; eauto]. Qed.
+
+  Lemma inc_desc n a b : includes_ok (S n) Q a = true -> istep a b -> includes_ok n Q b = true.
+  Proof.
+    intros H [f [inc [Hf [Hin Hr]]]]. cbn [includes_ok] in H. rewrite Hf in H. rewrite forallb_forall in H.
+    specialize (H _ Hin). rewrite Hr in H. exact H.
+  Qed.
+
+  Lemma inc_mono n : forall a, includes_ok n Q a = true -> includes_ok (S n) Q a = true.
+  Proof.
+    induction n as [|n IH]; intros a H; [discriminate|]. cbn [includes_ok] in H.
+    change (includes_ok (S (S n)) Q a) with
+      (match prog_file Q a with
+       | None => false
+       | Some f => forallb (fun i => match in_ref i with Some g => includes_ok (S n) Q g | None => false end) (f_includes f)
+       end).
+    destruct (prog_file Q a) as [f|]; [|discriminate]. rewrite forallb_forall in *. intros inc Hin.
+    specialize (H _ Hin). destruct (in_ref inc); [apply IH; exact H | discriminate].
+  Qed.
+
+  Lemma iplus_desc a b : iplus a b -> forall n, includes_ok (S n) Q a = true -> includes_ok n Q b = true.
+  Proof.
+    intros H. induction H as [a b S|a b d S _ IH]; intros n Hn; [eapply inc_desc; eauto|].
+    pose proof (inc_desc _ _ _ Hn S) as Hb. destruct n as [|n']; [discriminate|].
+    apply inc_mono. apply IH. exact Hb.
+  Qed.
+
+  Lemma no_cycle n : forall a, includes_ok n Q a = true -> iplus a a -> False.
+  Proof.
+    induction n as [|n IH]; intros a H Hc; [discriminate|]. eapply IH; [|exact Hc]. eapply iplus_desc; eauto.
+  Qed.
+
+  Lemma inc_in_keys n a : includes_ok n Q a = true -> In a (map fst Q).
+  Proof.
+    destruct n; [discriminate|]. cbn [includes_ok]. destruct (prog_file Q a) as [f|] eqn:Hf; [|discriminate].
+    intros _. apply lookup_In in Hf. apply in_map_iff. exists (a, f). auto.
+  Qed.
+
+  (* with enough fuel for an acyclic tree, the number of files is enough *)
+  Lemma depth_bound : forall n a V N,
+    includes_ok N Q a = true -> NoDup (a :: V) -> (forall v, In v V -> In v (map fst Q)) ->
+    (forall v, In v V -> iplus v a) -> List.length (map fst Q) <= List.length V + n ->
+    includes_ok n Q a = true.
+  Proof.
+    induction n as [|n IH]; intros a V N Hbig Hnd Hkeys Hanc Hlen.
+    - exfalso. assert (List.length (a :: V) <= List.length (map fst Q)) as Hle.
+      { apply NoDup_incl_length; [exact Hnd|]. intros x [<-|Hx]; [eapply inc_in_keys; eauto | auto]. }
+      cbn in Hle. lia.
+    - destruct N as [|N]; [discriminate|]. pose proof Hbig as Hbig0. cbn [includes_ok] in Hbig |- *.
+      destruct (prog_file Q a) as [f|] eqn:Hf; [|discriminate]. rewrite forallb_forall in Hbig. apply forallb_forall.
+      intros inc Hin. specialize (Hbig _ Hin). destruct (in_ref inc) as [g|] eqn:Hr; [|discriminate].
+      assert (istep a g) as Sg by (exists f, inc; auto).
+      eapply IH with (V := a :: V); [exact Hbig | | | |].
+      + constructor; [|exact Hnd]. intros [E|Hg].
+        * subst g. eapply (no_cycle (S N) a); [exact Hbig0 | apply ip_one; exact Sg].
+        * eapply (no_cycle N g); [exact Hbig|]. eapply iplus_snoc; [apply Hanc; exact Hg | exact Sg].
+      + intros v [<-|Hv]; [apply lookup_In in Hf; apply in_map_iff; exists (a, f); auto | auto].
+      + intros v [<-|Hv]; [apply ip_one; exact Sg | eapply iplus_snoc; [apply Hanc; exact Hv | exact Sg]].
+      + cbn. lia.
+  Qed.
+End Depth.
+
+
+(* ==================================================================== *)
+Lemma reach_prefix cp c p full fuel st : forall F acc acc',
+  reach cp c p full fuel st F acc = Ok acc' -> exists ext, acc' = acc ++ ext.
+Proof.
+  induction fuel as [|n IH]; intros F acc acc' H; cbn [reach] in H.
+  - destruct (existsb _ acc); [injection H as <-; exists []; rewrite app_nil_r; reflexivity | discriminate].
+  - destruct (existsb _ acc); [injection H as <-; exists []; rewrite app_nil_r; reflexivity|].
+    destruct (prog_file p F) as [f|]; [|discriminate].
+    apply TrimFacts.bind_ok in H. destruct H as [tf [Ht H]].
+    assert (forall l a b, fold_res (fun (inc : include) acc0 =>
+               match in_ref inc with Some tn => reach cp c p full n st tn acc0 | None => Crash end) l a = Ok b ->
+             exists ext, b = a ++ ext) as Hl.
+    { induction l as [|inc l IHl]; intros a b Hfo; cbn [fold_res] in Hfo.
+      - injection Hfo as <-. exists []. rewrite app_nil_r. reflexivity.
+      - apply TrimFacts.bind_ok in Hfo. destruct Hfo as [a1 [H1 H2]]. destruct (in_ref inc) as [tn|]; [|discriminate].
+        apply IH in H1. destruct H1 as [e1 ->]. apply IHl in H2. destruct H2 as [e2 ->].
+        exists (e1 ++ e2). rewrite app_assoc. reflexivity. }
+    apply Hl in H. destruct H as [e ->]. exists ((F, tf) :: e). rewrite <- app_assoc. reflexivity.
+Qed.
+
+Section IncludesOk.
+  Variable matches : bytes -> bytes -> bool.
+  Variable cp : bytes -> bool.
+  Variable c : cfg.
+  Variable p q : program.
+  Variable fin : mstate.
+  Hypothesis Hr : reach cp c p false (prog_size p) fin (main_name p) [] = Ok q.
+  Hypothesis Hres : resolvable p = true.
+
+  Lemma q_head : exists tf rest, q = (main_name p, tf) :: rest.
+  Proof.
+    pose proof Hr as H. destruct (prog_size p) as [|n] eqn:En; cbn [reach existsb] in H; [discriminate|].
+    destruct (prog_file p (main_name p)) as [f|]; [|discriminate].
+    apply TrimFacts.bind_ok in H. destruct H as [tf [_ H]].
+    assert (forall l a b, fold_res (fun (inc : include) acc0 =>
+               match in_ref inc with Some tn => reach cp c p false n fin tn acc0 | None => Crash end) l a = Ok b ->
+             exists ext, b = a ++ ext) as Hl.
+    { induction l as [|inc l IHl]; intros a b Hfo; cbn [fold_res] in Hfo.
+      - injection Hfo as <-. exists []. rewrite app_nil_r. reflexivity.
+      - apply TrimFacts.bind_ok in Hfo. destruct Hfo as [a1 [H1 H2]]. destruct (in_ref inc) as [tn|]; [|discriminate].
+        apply reach_prefix in H1. destruct H1 as [e1 ->]. apply IHl in H2. destruct H2 as [e2 ->].
+        exists (e1 ++ e2). rewrite app_assoc. reflexivity. }
+    apply Hl in H. destruct H as [e ->]. cbn. eauto.
+  Qed.
+
+  (* the include tree of the output is inside that of the input *)
+  Lemma inc_q n : forall fn, includes_ok n p fn = true -> In fn (map fst q) -> includes_ok n q fn = true.
+  Proof.
+    induction n as [|n IH]; intros fn H Hk; [discriminate|]. cbn [includes_ok] in *.
+    apply in_map_iff in Hk. destruct Hk as [[fn' qf] [E Hq]]. cbn in E. subst fn'.
+    rewrite (q_file cp c p q fin Hr _ _ Hq).
+    destruct (q_entry cp c p q fin Hr _ _ Hq) as [pf [Hpf Htf]]. rewrite Hpf in H.
+    rewrite forallb_forall in H. apply forallb_forall. intros inc Hin.
+    destruct (trim_file_includes _ _ _ _ _ _ _ _ Htf Hin) as [i [inc0 [Hn [-> _]]]]. cbn [in_ref].
+    specialize (H _ (nth_error_In _ _ Hn)). destruct (in_ref inc0) as [g|] eqn:Eg; [|discriminate].
+    apply IH; [exact H|].
+    pose proof (reach_closed cp c p false _ _ _ _ _ Hr _ Hq) as [[]|Hc]. eapply Hc; [exact Hin | reflexivity].
+  Qed.
+
+  Theorem trimmed_includes_ok :
+    match q with [] => true | (mn, _) :: _ => includes_ok (S (List.length q)) q mn end = true.
+  Proof.
+    destruct q_head as [tf [rest Eq]].
+    assert (includes_ok (S (List.length p)) p (main_name p) = true) as Hp.
+    { unfold resolvable in Hres. apply andb_true_iff in Hres. destruct Hres as [_ H]. unfold resolvable_with in H.
+      unfold main_name. destruct p as [|[mn mf] r]; [rewrite Eq in Hr; discriminate|].
+      apply andb_true_iff in H. tauto. }
+    assert (In (main_name p) (map fst q)) as Hk by (rewrite Eq; left; reflexivity).
+    pose proof (inc_q _ _ Hp Hk) as Hbig.
+    assert (includes_ok (S (List.length q)) q (main_name p) = true) as Hgoal.
+    { eapply (depth_bound q) with (V := []) (N := S (List.length p)); [exact Hbig | | | |].
+      - constructor; [intros [] | constructor].
+      - intros v [].
+      - intros v [].
+      - rewrite map_length. cbn. lia. }
+    destruct q as [|[mn mf] r]; [discriminate Eq|]. injection Eq as -> _ _. exact Hgoal.
+  Qed.
+End IncludesOk.
+
+
+(* ==================================================================== *)
+(* ---------------------------------------------------------------- base services, without a method filter *)
+
+Section BaseOk.
+  Variable matches : bytes -> bytes -> bool.
+  Variable cp : bytes -> bool.
+  Variable c : cfg.
+  Variable p q : program.
+  Variable fin : mstate.
+  Hypothesis Hwf : wf p.
+  Hypothesis Hm : mark_ast matches cp c p (prog_size p) = Ok fin.
+  Hypothesis Hr : reach cp c p false (prog_size p) fin (main_name p) [] = Ok q.
+  Hypothesis Hres : resolvable p = true.
+  Hypothesis Hocc : forall fn f, prog_file p fn = Some f -> forall t, In t (file_occs f) -> occ_good p fn f t.
+  Hypothesis Hkinds : forall fn f k s, prog_file p fn = Some f -> In s (sl_list k f) -> sl_category s = k.
+  Hypothesis Hnf : filtering c = false.
+  (* the recorded reference of a base service is the include the specification of C05 chooses *)
+  Hypothesis Hsv : forall fn f s, prog_file p fn = Some f -> In s (f_services f) ->
+    match split_type (sv_extends s) with
+    | [pre; m] => exists i gn, spec_include p is_service_kind pre m (file_incs f) 0 = Some (i, gn) /\
+                               sv_ref s = Some (Ref m (Z.of_nat i))
+    | _ => sv_ref s = None
+    end.
+
+  Lemma service_entry G pg a : prog_file p G = Some pg -> def_of p G a = Some DkService ->
+    exists b, In b (f_services pg) /\ sv_name b = a.
+  Proof.
+    intros Hpg Hd. unfold def_of in Hd. rewrite Hpg in Hd. apply lookup_In in Hd.
+    unfold file_defs in Hd. rewrite !in_app_iff in Hd.
+    destruct Hd as [H|[H|[H|[H|H]]]]; try (apply in_map_iff in H; destruct H as [x [E _]]; discriminate E).
+    apply in_map_iff in H. destruct H as [b [[= <-] Hin]]. eauto.
+  Qed.
+
+  Lemma service_kept G gq pg j b :
+    In (G, gq) q -> prog_file p G = Some pg -> nth_error (f_services pg) j = Some b ->
+    marked fin (NService G j) = true -> def_of q G (sv_name b) = Some DkService.
+  Proof.
+    intros Hq Hpg Hn Mk. destruct (q_entry cp c p q fin Hr _ _ Hq) as [pg' [Hpg' Htf]]. rewrite Hpg in Hpg'. injection Hpg' as <-.
+    apply (q_def_keep matches cp c p q fin Hwf Hm Hr Hres Hocc Hkinds _ _ _ _ Hq).
+    unfold trim_file in Htf. apply TrimFacts.bind_ok in Htf. destruct Htf as [incs [_ Htf]]. injection Htf as <-.
+    unfold file_defs. cbn [f_services]. rewrite !in_app_iff. right. right. right. right.
+    apply in_map_iff. exists (trim_service c fin G (j, b)). split.
+    - unfold trim_service. cbn [fst snd]. destruct (in_ext fin G j); reflexivity.
+    - apply in_map. apply filter_In. split; [apply indexed_In; exact Hn | exact Mk].
+  Qed.
+
+  Lemma service_kind k : is_service_kind k = true -> k = DkService.
+  Proof. destruct k as [t| |vs|s|]; cbn; try discriminate; [destruct s; discriminate | reflexivity]. Qed.
+
+  Theorem trimmed_base_ok F qf : In (F, qf) q -> forallb (base_ok q F qf) (f_services qf) = true.
+  Proof.
+    intros Hq. destruct (q_entry cp c p q fin Hr _ _ Hq) as [pf [Hpf Htf]].
+    destruct (mark_ast_final matches cp c p (wf_types _ Hwf) (wf_below _ Hwf) _ _ Hm) as [_ _ Hsvc _].
+    pose proof (p_file_ok matches cp c p q fin Hwf Hm Hr Hres Hocc Hkinds _ _ Hpf) as Hok. unfold file_ok in Hok.
+    rewrite !andb_true_iff in Hok. destruct Hok as [[[_ Hb] _] _]. rewrite forallb_forall in Hb.
+    apply forallb_forall. intros sv Hsvin.
+    pose proof Htf as Htf0.
+    unfold trim_file in Htf. apply TrimFacts.bind_ok in Htf. destruct Htf as [incs [_ Htf]].
+    assert (f_services qf = map (trim_service c fin F)
+              (filter (fun is => marked fin (NService F (fst is))) (indexed (f_services pf)))) as Es
+      by (injection Htf as <-; reflexivity).
+    rewrite Es in Hsvin. apply in_map_iff in Hsvin. destruct Hsvin as [[i s0] [<- Hin]].
+    apply filter_In in Hin. destruct Hin as [Hi Mk]. apply indexed_In in Hi. cbn [fst] in Mk.
+    pose proof (nth_error_In _ _ Hi) as Hs0.
+    specialize (Hb _ Hs0). specialize (Hsv _ _ _ Hpf Hs0).
+    destruct (Hsvc Hnf _ _ Mk _ _ Hpf Hi) as [_ Hbase].
+    unfold trim_service. cbn [fst snd].
+    destruct (in_ext fin F i); unfold base_ok; cbn [sv_extends]; [reflexivity|].
+    unfold base_ok in Hb.
+    destruct (split_type (sv_extends s0)) as [|a [|m [|? ?]]] eqn:Sn; try reflexivity.
+    - (* a base service of the same file *)
+      destruct (def_of p F a) as [[| | | |]|] eqn:Dk; try discriminate.
+      pose proof (split_type_single _ _ Sn) as Ea. subst a.
+      destruct (service_entry _ _ _ Hpf Dk) as [b [Hbin Hbn]].
+      assert (beqb (sv_name b) (sv_extends s0) = true) as Hbb by (rewrite Hbn; apply beqb_refl).
+      destruct (find_index_from_complete (fun x => beqb (sv_name x) (sv_extends s0)) (f_services pf) 0 b Hbin Hbb) as [j [b' Hfi]].
+      pose proof (find_index_some _ _ _ _ Hfi) as [Hnj Hbj]. apply beqb_true in Hbj.
+      assert (base_of p F s0 = Some (NService F j, [])) as Hbo.
+      { unfold base_of. destruct (sv_extends s0) eqn:Ee; [discriminate Sn|]. rewrite <- Ee in *. rewrite Hpf, Hsv.
+        unfold find_index. rewrite Hfi. reflexivity. }
+      destruct (Hbase _ _ Hbo) as [Mb _].
+      rewrite <- Hbj. rewrite (service_kept _ _ _ _ _ Hq Hpf Hnj Mb). reflexivity.
+    - (* a base service written through an include *)
+      destruct (spec_include p is_service_kind a m (file_incs pf) 0) as [[i0 gn]|] eqn:Hs; [|discriminate].
+      destruct Hsv as [i1 [gn1 [E1 Hrf]]]. injection E1 as <- <-.
+      destruct (spec_include_nth _ _ _ _ _ _ _ _ Hs) as [_ [_ [k [Dk Ok]]]]. apply service_kind in Ok. subst k.
+      pose proof (spec_include_file p _ _ _ _ _ _ _ Hpf Hs) as Hif.
+      assert (exists tf, prog_file p gn = Some tf) as [tf Htfile].
+      { unfold def_of in Dk. destruct (prog_file p gn); [eauto | discriminate]. }
+      destruct (service_entry _ _ _ Htfile Dk) as [b [Hbin Hbn]].
+      assert (beqb (sv_name b) m = true) as Hbb by (rewrite Hbn; apply beqb_refl).
+      destruct (find_index_from_complete (fun x => beqb (sv_name x) m) (f_services tf) 0 b Hbin Hbb) as [j [b' Hfi]].
+      pose proof (find_index_some _ _ _ _ Hfi) as [Hnj Hbj]. apply beqb_true in Hbj.
+      assert (base_of p F s0 = Some (NService gn j, [NInclude F i0])) as Hbo.
+      { unfold base_of. destruct (sv_extends s0) eqn:Ee; [discriminate Sn|]. rewrite <- Ee in *. rewrite Hpf, Hrf.
+        cbn [ref_index ref_name]. rewrite Hif, Htfile. unfold find_index. rewrite Hfi. reflexivity. }
+      destruct (Hbase _ _ Hbo) as [Mb Mv].
+      assert (marked fin (NInclude F i0) = true) as Mi by (apply Mv; left; reflexivity).
+      destruct (include_kept cp c p q fin Hr _ _ _ _ _ Hq Hpf Hif Mi) as [_ [gq Hgq]].
+      pose proof (service_kept _ _ _ _ _ Hgq Htfile Hnj Mb) as Dq. rewrite Hbj in Dq.
+      destruct (q_spec_include matches cp c p q fin Hwf Hm Hr Hres Hocc Hkinds _ _ _ is_service_kind _ _ _ _ Hq Hpf Hs Mi
+                  (ex_intro _ DkService (conj Dq eq_refl))) as [i' Hs'].
+      rewrite Hs'. reflexivity.
+  Qed.
+End BaseOk.
+
+
+(* ==================================================================== *)
+Section Final.
+  Variable matches : bytes -> bytes -> bool.
+  Variable cp : bytes -> bool.
+  Variable c : cfg.
+  Variable p q : program.
+  Variable fin : mstate.
+  Hypothesis Hwf : wf p.
+  Hypothesis Hm : mark_ast matches cp c p (prog_size p) = Ok fin.
+  Hypothesis Hr : reach cp c p false (prog_size p) fin (main_name p) [] = Ok q.
+  Hypothesis Hres : resolvable p = true.
+  Hypothesis Hocc : forall fn f, prog_file p fn = Some f -> forall t, In t (file_occs f) -> occ_good p fn f t.
+  Hypothesis Hkinds : forall fn f k s, prog_file p fn = Some f -> In s (sl_list k f) -> sl_category s = k.
+
+  (* every configuration: the include-depth hypothesis is discharged *)
+  Theorem trim_resolves_given_bases_and_idents :
+    (forall F qf, In (F, qf) q -> forallb (base_ok q F qf) (f_services qf) = true) ->
+    (forall F qf, In (F, qf) q -> forallb (cv_idents_ok (ident_ok q F)) (file_top_const_values qf) = true) ->
+    resolvable q = true /\ exists r, Idl.Resolve.resolve_program q = Idl.Resolve.Ok r.
+  Proof.
+    intros Hbase Hid.
+    eapply (trim_resolves_with matches cp c p q fin Hwf Hm Hr Hres Hocc Hkinds); [|exact Hbase | exact Hid].
+    eapply trimmed_includes_ok; eauto.
+  Qed.
+
+  (* without a method filter the base services are discharged as well; what remains is the
+     hypothesis on identifiers used as values *)
+  Theorem trim_resolves_no_filter :
+    filtering c = false ->
+    (forall fn f s, prog_file p fn = Some f -> In s (f_services f) ->
+       match split_type (sv_extends s) with
+       | [pre; m] => exists i gn, spec_include p is_service_kind pre m (file_incs f) 0 = Some (i, gn) /\
+                                  sv_ref s = Some (Ref m (Z.of_nat i))
+       | _ => sv_ref s = None
+       end) ->
+    (forall F qf, In (F, qf) q -> forallb (cv_idents_ok (ident_ok q F)) (file_top_const_values qf) = true) ->
+    resolvable q = true /\ exists r, Idl.Resolve.resolve_program q = Idl.Resolve.Ok r.
+  Proof.
+    intros Hnf Hsv Hid. apply trim_resolves_given_bases_and_idents; [|exact Hid].
+    intros F qf Hq. eapply (trimmed_base_ok matches cp c p q fin Hwf Hm Hr Hres Hocc Hkinds Hnf Hsv); exact Hq.
+  Qed.
+End Final.
